@@ -234,7 +234,15 @@ void rt_env_release() {
 AllocStats& rt_alloc_stats() { return g_as; }
 void rt_reset_alloc_stats() { int64_t lb = g_as.live_blocks, ly = g_as.live_bytes; g_as = AllocStats(); g_as.live_blocks = lb; g_as.live_bytes = ly; g_as.peak_bytes = ly; g_as_base_bytes = ly; }
 
-static void* sim_alloc(size_t n, bool nothrow, int kind, size_t align) {
+// Blocks allocated before main() by code that lives in libclipsim.so (a table the library builds during static
+// initialisation) are global state of the library just like its .data/.bss: the static-storage monitor covers them.
+static bool g_main_started = false;
+struct PreBlk { const unsigned char* p; size_t n; const void* ra; };
+static const int PRE_MAX = 4096;
+static PreBlk g_pre[PRE_MAX]; static int g_npre = 0;
+static const uint64_t PRE_TAG = 0x5052454D41494E21ull;
+
+static void* sim_alloc(size_t n, bool nothrow, int kind, size_t align, const void* ra) {
   TaskCtx* t = sim_cur();
   bool inscope = t->scope > 0;
   if (inscope) {
@@ -276,6 +284,8 @@ static void* sim_alloc(size_t n, bool nothrow, int kind, size_t align) {
   Hdr* h = (Hdr*)((char*)base + off - sizeof(Hdr));
   h->size = n; h->magic = MAGIC; h->kind = (uint8_t)kind; h->inscope = inscope; h->off = (uint16_t)off;
   void* user = (char*)base + off;
+  h->pad[1] = 0;
+  if (!g_main_started && g_npre < PRE_MAX) { g_pre[g_npre++] = { (const unsigned char*)user, n, ra }; h->pad[1] = PRE_TAG; }
   fill_bytes(user, g_fill, n);
   SIM_MEM_UNDEFINED(user, n);
   hdr_poison(base, off);
@@ -306,6 +316,7 @@ static void sim_free(void* user, int kind) {
   h->magic = 0xDEADF4EEu;
   fill_bytes(user, g_free_fill, h->size);
   if (h->inscope == 2) { arena_free(h, user); return; }
+  if (h->pad[1] == PRE_TAG) { for (int i = 0; i < g_npre; ++i) if (g_pre[i].p == (const unsigned char*)user) { g_pre[i] = g_pre[--g_npre]; break; } h->pad[1] = 0; }
   hdr_poison((char*)user - h->off, h->off);
   if (g_defer_cap > 0) {
     if (g_defer_n < g_defer_cap) { g_defer[g_defer_n++] = user; return; }
@@ -317,14 +328,14 @@ static void sim_free(void* user, int kind) {
 
 } // namespace sim
 
-void* operator new(size_t n) { return sim::sim_alloc(n, false, 0, 0); }
-void* operator new[](size_t n) { return sim::sim_alloc(n, false, 1, 0); }
-void* operator new(size_t n, const std::nothrow_t&) noexcept { return sim::sim_alloc(n, true, 0, 0); }
-void* operator new[](size_t n, const std::nothrow_t&) noexcept { return sim::sim_alloc(n, true, 1, 0); }
-void* operator new(size_t n, std::align_val_t a) { return sim::sim_alloc(n, false, 0, (size_t)a); }
-void* operator new[](size_t n, std::align_val_t a) { return sim::sim_alloc(n, false, 1, (size_t)a); }
-void* operator new(size_t n, std::align_val_t a, const std::nothrow_t&) noexcept { return sim::sim_alloc(n, true, 0, (size_t)a); }
-void* operator new[](size_t n, std::align_val_t a, const std::nothrow_t&) noexcept { return sim::sim_alloc(n, true, 1, (size_t)a); }
+void* operator new(size_t n) { return sim::sim_alloc(n, false, 0, 0, __builtin_return_address(0)); }
+void* operator new[](size_t n) { return sim::sim_alloc(n, false, 1, 0, __builtin_return_address(0)); }
+void* operator new(size_t n, const std::nothrow_t&) noexcept { return sim::sim_alloc(n, true, 0, 0, __builtin_return_address(0)); }
+void* operator new[](size_t n, const std::nothrow_t&) noexcept { return sim::sim_alloc(n, true, 1, 0, __builtin_return_address(0)); }
+void* operator new(size_t n, std::align_val_t a) { return sim::sim_alloc(n, false, 0, (size_t)a, __builtin_return_address(0)); }
+void* operator new[](size_t n, std::align_val_t a) { return sim::sim_alloc(n, false, 1, (size_t)a, __builtin_return_address(0)); }
+void* operator new(size_t n, std::align_val_t a, const std::nothrow_t&) noexcept { return sim::sim_alloc(n, true, 0, (size_t)a, __builtin_return_address(0)); }
+void* operator new[](size_t n, std::align_val_t a, const std::nothrow_t&) noexcept { return sim::sim_alloc(n, true, 1, (size_t)a, __builtin_return_address(0)); }
 void operator delete(void* p) noexcept { sim::sim_free(p, 0); }
 void operator delete[](void* p) noexcept { sim::sim_free(p, 1); }
 void operator delete(void* p, size_t) noexcept { sim::sim_free(p, 0); }
@@ -365,7 +376,7 @@ void rt_clear_guard_hits() { if (g_hits) memset(g_hits, 0, g_nguards + 2); }
 uint64_t rt_total_steps() { return g_steps_retired.load() + g_main_ctx.steps; }
 
 // ------------------------------------------------------------------ static storage monitor (S4)
-static uintptr_t g_lib_base = 0;
+static uintptr_t g_lib_base = 0, g_text_lo = 0, g_text_hi = 0;
 static StaticRegion g_regions[8]; static int g_nregions = -1;
 static unsigned char* g_snap = nullptr; static size_t g_snap_n = 0;
 
@@ -381,6 +392,10 @@ static int phdr_cb(struct dl_phdr_info* info, size_t, void*) {
       relro_hi = (relro_hi + 4095) & ~(uintptr_t)4095;
     }
   g_nregions = 0;
+  for (int i = 0; i < info->dlpi_phnum; ++i) {
+    const ElfW(Phdr)& ph = info->dlpi_phdr[i];
+    if (ph.p_type == PT_LOAD && (ph.p_flags & PF_X)) { g_text_lo = info->dlpi_addr + ph.p_vaddr; g_text_hi = g_text_lo + ph.p_memsz; }
+  }
   for (int i = 0; i < info->dlpi_phnum && g_nregions < 7; ++i) {
     const ElfW(Phdr)& ph = info->dlpi_phdr[i];
     if (ph.p_type != PT_LOAD || !(ph.p_flags & PF_W)) continue;
@@ -406,19 +421,40 @@ uint64_t rt_static_digest() {
   for (int i = 0; i < n; ++i) for (size_t k = 0; k < r[i].n; ++k) { h ^= r[i].p[k]; h *= 1099511628211ull; }
   return h;
 }
-void rt_static_snapshot() {
-  StaticRegion r[8]; int n = rt_static_regions(r, 8);
-  size_t tot = rt_static_bytes();
-  if (tot != g_snap_n) { free(g_snap); g_snap = (unsigned char*)malloc(tot ? tot : 1); g_snap_n = tot; }
-  size_t o = 0; for (int i = 0; i < n; ++i) { memcpy(g_snap + o, r[i].p, r[i].n); o += r[i].n; }
+// all monitored ranges: the writable segments of libclipsim.so, the blocks its code allocated before main(), and the part of
+// the arena that holds blocks which outlived every object of an earlier fault-free execution (heap state that only a
+// static pointer can still reach: a lazily built table or a cache)
+static int monitored(StaticRegion* out, int max) {
+  int n = rt_static_regions(out, 8);
+  for (int i = 0; i < g_npre && n < max; ++i) {
+    uintptr_t ra = (uintptr_t)g_pre[i].ra;
+    if (ra >= g_text_lo && ra < g_text_hi && g_pre[i].n > 0) out[n++] = { g_pre[i].p, g_pre[i].n };
+  }
+  if (g_ar_enabled && g_ar_floor > 0 && n < max) out[n++] = { (const unsigned char*)g_ar_base, g_ar_floor };
+  return n;
 }
+static const int MON_MAX = 8 + 512;
+static int g_snap_nreg = 0; static StaticRegion g_snap_reg[MON_MAX];
+size_t rt_static_bytes_all() { StaticRegion r[MON_MAX]; int n = monitored(r, MON_MAX); size_t s = 0; for (int i = 0; i < n; ++i) s += r[i].n; return s; }
+void rt_static_snapshot() {
+  g_snap_nreg = monitored(g_snap_reg, MON_MAX);
+  size_t tot = 0; for (int i = 0; i < g_snap_nreg; ++i) tot += g_snap_reg[i].n;
+  if (tot != g_snap_n) { free(g_snap); g_snap = (unsigned char*)malloc(tot ? tot : 1); g_snap_n = tot; }
+  size_t o = 0; for (int i = 0; i < g_snap_nreg; ++i) { memcpy(g_snap + o, g_snap_reg[i].p, g_snap_reg[i].n); o += g_snap_reg[i].n; }
+}
+// offset of the first changed byte: relative to libclipsim.so for static storage, 2^40 + k for a block allocated before
+// main() (k = index), 2^41 + offset for the preserved part of the arena; -1 if nothing changed
 int64_t rt_static_diff() {
-  StaticRegion r[8]; int n = rt_static_regions(r, 8);
-  size_t o = 0;
-  for (int i = 0; i < n; ++i) {
-    if (memcmp(g_snap + o, r[i].p, r[i].n) != 0)
-      for (size_t k = 0; k < r[i].n; ++k) if (g_snap[o + k] != r[i].p[k]) return (int64_t)((uintptr_t)(r[i].p + k) - g_lib_base);
-    o += r[i].n;
+  size_t o = 0; int nstat = g_nregions > 0 ? g_nregions : 0;
+  for (int i = 0; i < g_snap_nreg; ++i) {
+    const StaticRegion& r = g_snap_reg[i];
+    if (memcmp(g_snap + o, r.p, r.n) != 0)
+      for (size_t k = 0; k < r.n; ++k) if (g_snap[o + k] != r.p[k]) {
+        if (i < nstat) return (int64_t)((uintptr_t)(r.p + k) - g_lib_base);
+        if (g_ar_enabled && r.p == (const unsigned char*)g_ar_base) return ((int64_t)1 << 41) + (int64_t)k;
+        return ((int64_t)1 << 40) + (int64_t)(i - nstat);
+      }
+    o += r.n;
   }
   return -1;
 }
@@ -526,6 +562,7 @@ void rt_run_tasks(int ntasks, TaskFn fn, void* arg, ChooseFn choose, void* cctx,
 }
 
 void rt_init(const char* status_path) {
+  g_main_started = true;
   tl_cur = &g_main_ctx;
   if (!__tsan_init && !getenv("SIM_NO_ARENA")) arena_init();
   if (status_path && *status_path) {
